@@ -80,30 +80,42 @@ macro_rules! suite {
             let _ = ClientLogin::<$name>::deserialize(b).map(|x| x.serialize());
             let _ = ServerLogin::<$name>::deserialize(b).map(|x| x.serialize());
         }
-        pub fn $flow(b: &[u8], rng: &mut TapeRng, ksf: &$ksf) {
+        /// Honest registration followed by an honest login, every role with its own parameter
+        /// (this body is itself interpreted by the C01 composite rule).
+        pub fn $flow(
+            pw: &[u8],
+            cred: &[u8],
+            ctx: &[u8],
+            idu: &[u8],
+            ids: &[u8],
+            rng: &mut TapeRng,
+            ksf: &$ksf,
+        ) -> Option<(
+            ClientRegistrationFinishResult<$name>,
+            ClientLoginFinishResult<$name>,
+            ServerLoginFinishResult<$name>,
+            ServerSetup<$name>,
+        )> {
             let setup = ServerSetup::<$name>::new(rng);
-            let ids = Identifiers { client: Some(b), server: Some(b) };
-            if let Ok(r) = ClientRegistration::<$name>::start(rng, b) {
-                if let Ok(s) = ServerRegistration::<$name>::start(&setup, r.message, b) {
-                    if let Ok(f) = r.state.finish(rng, b, s.message, ClientRegistrationFinishParameters::new(ids, Some(ksf))) {
-                        let file = ServerRegistration::<$name>::finish(f.message);
-                        if let Ok(l) = ClientLogin::<$name>::start(rng, b) {
-                            if let Ok(sl) = ServerLogin::start(
-                                rng,
-                                &setup,
-                                Some(file),
-                                l.message,
-                                b,
-                                ServerLoginStartParameters { context: Some(b), identifiers: ids },
-                            ) {
-                                if let Ok(cf) = l.state.finish(b, sl.message, ClientLoginFinishParameters::new(Some(b), ids, Some(ksf))) {
-                                    let _ = sl.state.finish(cf.message);
-                                }
-                            }
-                        }
-                    }
-                }
-            }
+            let _ = setup.keypair().public().serialize();
+            let ids = Identifiers { client: Some(idu), server: Some(ids) };
+            let r = ClientRegistration::<$name>::start(rng, pw).ok()?;
+            let s = ServerRegistration::<$name>::start(&setup, r.message, cred).ok()?;
+            let f = r.state.finish(rng, pw, s.message, ClientRegistrationFinishParameters::new(ids, Some(ksf))).ok()?;
+            let file = ServerRegistration::<$name>::finish(f.message.clone());
+            let l = ClientLogin::<$name>::start(rng, pw).ok()?;
+            let sl = ServerLogin::start(
+                rng,
+                &setup,
+                Some(file),
+                l.message,
+                cred,
+                ServerLoginStartParameters { context: Some(ctx), identifiers: ids },
+            )
+            .ok()?;
+            let cf = l.state.finish(pw, sl.message, ClientLoginFinishParameters::new(Some(ctx), ids, Some(ksf))).ok()?;
+            let sf = sl.state.finish(cf.message.clone()).ok()?;
+            Some((f, cf, sf, setup))
         }
         pub fn $keys(b: &[u8], rng: &mut TapeRng) {
             if let Ok(kp) = KeyPair::<$ke>::from_private_key_slice(b) {
